@@ -16,8 +16,8 @@ def subsets():
 
 def run(ctx, res):
     ctx.build()
-    res.rule = ("for an option set O the same family pattern P is predicted and replayed in four spellings: compile option O, leading (?O)P, wrapping (?O:P), and "
-                "(?-O:P)(?O:P) compiled with O (scoping of (?-O)). M: on the specification Find(Elab(P,O)) = Find(Elab((?O)P, {})) = Find(Elab((?O:P), {})) for every input "
+    res.rule = ("for an option set O the same family pattern P is predicted and replayed in six spellings: compile option O, leading (?O)P, wrapping (?O:P), "
+                "(?-O:P)(?O:P) compiled with O (scoping of (?-O)), (?:(?O)P) (an option item inside a group) and (?:(?O)P)P (its scope ends with the group). M: on the specification Find(Elab(P,O)) = Find(Elab((?O)P, {})) = Find(Elab((?O:P), {})) for every input "
                 "and start offset (a difference is reported as a broken specification). F: every spelling's prediction is replayed into the real engine (index, length, "
                 "capture lists; n changes the numbering, x the printer). B: random ASTs with the drawn options moved into (?O) / (?O:..) / switched off again in a trailing "
                 "(?-O:..). Alphabet a, B, newline so that i, m and s matter. non-trivial as in C01")
@@ -26,18 +26,19 @@ def run(ctx, res):
     alpha = [97, 66, 10]
     def variants(O):
         return [{"spelling": "plain", "so": [], "o": O}, {"spelling": "optset", "so": O, "o": []},
-                {"spelling": "optgroup", "so": O, "o": []}, {"spelling": "nested", "so": O, "o": O}]
+                {"spelling": "optgroup", "so": O, "o": []}, {"spelling": "nested", "so": O, "o": O},
+                {"spelling": "inner", "so": O, "o": []}, {"spelling": "innertail", "so": O, "o": []}]
     if ctx.tier == "quick":
         k = ctx.seed % len(subs)
         vs = variants(subs[k]) + variants(subs[(k * 7 + 11) % len(subs)]) + variants(["i", "m", "s", "n", "x"])
-        findgen.gen_find(ctx, res, FAMS, [], "net", False, alpha, 3, 64, ctx.seed % 64, "F-spellings", variants=vs)
+        findgen.gen_find(ctx, res, FAMS, [], "net", False, alpha, 3, 96, ctx.seed % 96, "F-spellings", variants=vs)
         findobs.obs_find(ctx, res, ["-n", "700", "-stream", "41", "-spelling", "-opts", "imsnx", "-re2", "0"], "B-spelling")
     else:
         for i in range(0, len(subs), 4):
             vs = []
             for O in subs[i:i + 4]:
                 vs += variants(O)
-            findgen.gen_find(ctx, res, FAMS, [], "net", False, alpha, 3, 24, (ctx.seed + i) % 24, f"F-spellings{i}", variants=vs)
+            findgen.gen_find(ctx, res, FAMS, [], "net", False, alpha, 3, 36, (ctx.seed + i) % 36, f"F-spellings{i}", variants=vs)
         for b in range(4):
             findobs.obs_find(ctx, res, ["-n", "2500", "-stream", str(41 + b), "-spelling", "-opts", "imsnx", "-re2", "0"], f"B-spelling{b}")
         res.exhaustive = True
